@@ -284,6 +284,31 @@ impl Property for C18 {
                     }
                 }
             }
+            // a first-order number against the second-order number DERIVED from it (and the other way
+            // round): the two share one variable-list allocation, which must not make the pairing
+            // acceptable
+            {
+                let d = c.a.dual();
+                let d2 = c.a.dual2();
+                let pairs = [
+                    (Number::Dual(d.clone()), Number::Dual2(Dual2::from(&d)), "Dual with its own Dual2::from(&d)"),
+                    (Number::Dual2(Dual2::from(&d)), Number::Dual(d.clone()), "Dual2::from(&d) with d"),
+                    (Number::Dual2(d2.clone()), Number::Dual(Dual::from(&d2)), "Dual2 with its own Dual::from(&d2)"),
+                    (set_order_clone(&Number::Dual(d.clone()), ADOrder::Two, vec![]), Number::Dual(d.clone()), "set_order_clone(d, Two) with d"),
+                ];
+                for (x, y, what) in pairs {
+                    for owned in [false, true] {
+                        if let Ok(g) = catch(|| container_bin(op, &x, &y, owned)) {
+                            v.fail(
+                                format!("container {} | first-order with second-order was computed, not refused", opname),
+                                format!("derived operands sharing their variable list ({}): {} {} {} returned {}", what, show(&x), opname, show(&y), show(&g)),
+                            );
+                            return v;
+                        }
+                    }
+                }
+                v.label("refused:derived-operands-sharing-storage");
+            }
             // float on the right and on the left
             let f = c.f.0;
             let exp_r = contained_bin(op, &na, &Number::F64(f)).unwrap();
